@@ -317,3 +317,112 @@ def model_search(names, tier='quick', deadline_s=240):
         if any(v[2] for v in found.values()):
             break
     return found
+
+
+# ------------------------------------------------------------------------------------------ engine vs CPython cross-check
+def cross_check(n=12, seed=0):
+    """Run the symbolic executor on fully concrete scenarios and compare what it predicts with what the REAL service does
+    (DESIGN.md 2.8).  Returns (agreements, disagreements[list])."""
+    import random
+    rnd = random.Random(seed)
+    bad, good = [], 0
+    for case in range(n):
+        nt = rnd.randint(0, 2)
+        states = [rnd.choice([(REQUESTED, False), (ACTIVE, True), (ACTIVE, False), (SUCCEEDED, False), (STOPPING, True)]) for _ in range(nt)]
+        count = rnd.randint(1, 3)
+        deliver = rnd.choice([0, 1, 2, 3, 'raise'])
+        n_setup_c = sum(1 for st, mine in states if st in (ACTIVE, STOPPING) and mine)
+
+        def entry(it, nt=nt, states=states, count=count, n_setup_c=n_setup_c):
+            base = make_entry(nt, n_setup_c)
+            # fix every symbolic input of the bounded view to the scenario's concrete values
+            run = it.run
+            orig_assume = run.assume
+            res = None
+
+            def go():
+                return base(it)
+            # constraints must be in place before the call: pre-register through a wrapper entry
+            return go()
+
+        def constrained(it):
+            t = T()
+            sk, c = S.init_view_bounded(it, nt, n_setup_c, bound=3, study_may_be_missing=False)
+            run = it.run
+            for i, (st, mine) in enumerate(states):
+                x = val(t, run.D0['D.trial'][run.tables['trials0'][i]])
+                run.assume(acc(t, 'state')(x) == st)
+                run.assume((acc(t, 'client_id')(x) == c) if mine else (acc(t, 'client_id')(x) != c))
+            run.assume(acc(ST(), 'state')(val(ST(), run.D0['D.study'][sk])) == 1)
+            for k_ in run.tables['sops0']:
+                run.assume(acc(OP(), 'done')(val(OP(), run.D0['D.sop'][k_])))
+            svc = S.make_servicer(it)
+            req = Msg.default(S.schema('vizier.SuggestTrialsRequest'))
+            req.set('parent', S.make_name(it, sk))
+            req.set('client_id', c)
+            req.set('suggestion_count', count)
+            run.assume(S.valid_comp(c))
+            run.req = req
+            cls = ModuleInfo.get(SG.SVC).classes['VizierServicer']
+            return it.invoke(E.FuncVal(cls.mod, cls.methods['SuggestTrials'], cls), [svc, req, None], {})
+
+        paths = [p for p in E.explore(constrained) if p.kind in ('return', 'raise')]
+        want_raise = deliver == 'raise'
+        n_own = sum(1 for st, mine in states if st == ACTIVE and mine)
+        n_pool = sum(1 for st, mine in states if st == REQUESTED)
+        reaches_pythia = n_own + n_pool < count
+
+        def matches(p):
+            called = any(e[0] == 'pythia' for e in p.run.events)
+            if not reaches_pythia:
+                return not called
+            if not called:
+                return False
+            if want_raise:
+                return getattr(p.run, 'pythia_raised', False)
+            return not getattr(p.run, 'pythia_raised', False) and len(getattr(p.run, 'NT_list', [])) == deliver
+        sel = [p for p in paths if matches(p)]
+        # the has_pythia_endpoint / exception-class forks do not change the observable outcome: compare the set
+        pred = set()
+        for p in sel:
+            if p.kind == 'raise':
+                pred.add(('raise', E.class_name(p.value.cls)))
+                continue
+            op = p.value
+            done = z3.simplify(E.to_z3(op.get('done')))
+            case_ = z3.simplify(E.to_z3(op.get_case('result')) if not isinstance(op.get_case('result'), int) else z3.IntVal(op.get_case('result')))
+            has_err = z3.is_int_value(case_) and case_.as_long() == OP().fields['error'].number
+            ntr = None
+            if not has_err:
+                Rn, Ra = SG.response_list(p)
+                s = z3.Solver()
+                for c_ in p.run.pc:
+                    s.add(c_)
+                if s.check() == z3.sat:
+                    ntr = s.model().eval(Rn, model_completion=True).as_long()
+            pred.add(('return', z3.is_true(done), has_err, ntr))
+        # native
+        steps = [{'rpc': 'CreateStudy'}]
+        for st, mine in states:
+            steps.append({'rpc': 'CreateTrial', 'state': 'SUCCEEDED' if st == SUCCEEDED else 'REQUESTED', 'final': 1.0 if st == SUCCEEDED else None})
+            tid = len([x for x in steps if x['rpc'] == 'CreateTrial'])
+            if st in (ACTIVE, STOPPING):
+                steps.append({'rpc': 'SuggestTrials', 'count': 1, 'client': 'c' if mine else 'other'})
+                if st == STOPPING:
+                    steps.append({'rpc': 'StopTrial', 'trial': tid})
+        steps += [{'rpc': 'snapshot'}, {'rpc': 'SuggestTrials', 'count': count, 'client': 'c', 'under_test': True}, {'rpc': 'snapshot'}]
+        sc = {'backend': 'ram', 'policy': {'suggest': [{'raise': 'RuntimeError'}] if want_raise else [{'deliver': deliver}]}, 'steps': steps}
+        res, err = replay(sc)
+        if res is None:
+            bad.append({'case': case, 'error': err})
+            continue
+        call = [r for r, s_ in zip(res['results'], steps) if s_.get('under_test')][0]
+        if call['ok']:
+            nat = ('return', call['op']['done'], call['op']['has_error'], len(call['op'].get('trials', [])) if not call['op']['has_error'] else None)
+        else:
+            nat = ('raise', call['error_class'])
+        if nat in pred and len(pred) == 1:
+            good += 1
+        else:
+            bad.append({'case': case, 'scenario': {'states': states, 'count': count, 'deliver': deliver}, 'engine': sorted(map(str, pred)), 'native': str(nat)})
+    return good, bad
